@@ -51,7 +51,8 @@ def alphabet(cls):
            ('scale_by_freq', True), ('scale_by_freq', False),
            ('sides', 'onesided'), ('sides', 'twosided'), ('sides', 'centerdc'), ('sides', 'same'),
            ('detrend', 'mean'), ('call', None), ('read', 'psd'), ('read', 'df'), ('read', 'frequencies'),
-           ('read', 'converted:twosided'), ('read', 'converted:centerdc'), ('read', 'converted:onesided')]
+           ('read', 'converted:twosided'), ('read', 'converted:centerdc'), ('read', 'converted:onesided'),
+           ('plot', 'norm'), ('plot', 'centerdc')]
     if cls in FOURIER:
         ops += [('window', 'hamming'), ('window', 'hann'), ('window', 'same')]
     if cls == 'pcorrelogram':
@@ -367,6 +368,18 @@ def run_case(c, d):
                 changed.append('sides')
             elif kind == 'call':
                 live()
+            elif kind == 'plot':
+                # plotting is a read: it may compute, it must not alter what later reads return
+                import matplotlib
+                matplotlib.use('Agg')
+                import matplotlib.pyplot as plt
+                try:
+                    if val == 'norm':
+                        live.plot(norm=True)
+                    else:
+                        live.plot(sides=val)
+                finally:
+                    plt.close('all')
             elif kind == 'read':
                 history.append(op)
                 if not observe(val):
@@ -381,7 +394,17 @@ def run_case(c, d):
             except Exception:
                 c.discard('op-out-of-domain:%s' % kind)
                 return
-            c.exception('op:%s' % kind, exc, dict(feats0, op=kind, datatype='complex' if st['data'] == 'C' else 'real'))
+            fx = dict(feats0, op=kind, datatype='complex' if st['data'] == 'C' else 'real')
+            chx = None
+            if kind == 'plot' and st['data'] != 'C' and st['NFFT'] % 2:
+                # F08 seen through plot(): for real data and odd NFFT the private two-sided layout has NFFT-1 values,
+                # which plot() itself refuses to draw against the NFFT-entry axis
+                fx['layout'] = 'private-nyquist-last'
+                msg = str(exc)
+
+                def chx(which, msg=msg, n=st['NFFT']):
+                    return which == 'frozen-conversion-branches' and msg == 'PSD length is %d and freq length is %d' % (n - 1, n)
+            c.exception('op:%s' % kind, exc, fx, charact=chx)
             return
         history.append(op)
         n2 = calls_of(cls)
